@@ -296,7 +296,10 @@ func c03Run(c *c03Case) (in []Ev, obs []Ev, fail string) {
 	}
 	scope, closer := tally.VerifNewRootScope(opts, 0, 1)
 	defer closer.Close()
-	var h tally.Histogram
+	var h, shadow tally.Histogram
+	var shadowTS tally.TestScope
+	snapV, snapD := map[float64]int64{}, map[time.Duration]int64{}
+	var snapWant, snapNaN int64
 	preMark := 0
 	func() {
 		defer func() {
@@ -345,6 +348,12 @@ func c03Run(c *c03Case) (in []Ev, obs []Ev, fail string) {
 			h = scope.SubScope("s").Histogram("h", b)
 		} else {
 			h = scope.Histogram("h", b)
+		}
+		if !c.Nil {
+			// the same history on a reporter-less test scope: "counted in exactly one bucket" as the
+			// snapshot shows it (one entry per distinct upper bound, equal bounds adding up)
+			shadowTS = tally.NewTestScope("", nil)
+			shadow = shadowTS.Histogram("h", b)
 		}
 	}()
 	if fail != "" {
@@ -430,19 +439,30 @@ func c03Run(c *c03Case) (in []Ev, obs []Ev, fail string) {
 				if o.Op == "v" {
 					in = append(in, Ev{K: 31, I: []int64{o.V}, F: 1})
 					h.RecordValue(math.Float64frombits(uint64(o.V)))
+					if shadow != nil {
+						shadow.RecordValue(math.Float64frombits(uint64(o.V)))
+					}
 					if !hdur {
 						if p, ok := expectBucket(o.V); ok {
 							pending[p]++
+							snapV[math.Float64frombits(uint64(p.hi))]++
+							snapWant++
 						} else {
 							nanPending++
+							snapNaN++
 						}
 					}
 				} else {
 					in = append(in, Ev{K: 32, I: []int64{o.V}})
 					h.RecordDuration(time.Duration(o.V))
+					if shadow != nil {
+						shadow.RecordDuration(time.Duration(o.V))
+					}
 					if hdur {
 						p, _ := expectBucket(o.V)
 						pending[p]++
+						snapD[time.Duration(p.hi)]++
+						snapWant++
 					}
 				}
 			}()
@@ -516,6 +536,35 @@ func c03Run(c *c03Case) (in []Ev, obs []Ev, fail string) {
 			}
 			pending = map[pair]int64{}
 			nanPending = 0
+		}
+	}
+	if fail == "" && shadow != nil {
+		for _, hs := range shadowTS.Snapshot().Histograms() {
+			var total int64
+			if hdur {
+				got := hs.Durations()
+				for _, n := range got {
+					total += n
+				}
+				for u, n := range snapD {
+					if got[u] < n {
+						fail = fmt.Sprintf("test scope: the snapshot shows %d samples at upper bound %d, %d were recorded there", got[u], int64(u), n)
+					}
+				}
+			} else {
+				got := hs.Values()
+				for _, n := range got {
+					total += n
+				}
+				for u, n := range snapV {
+					if got[u] < n {
+						fail = fmt.Sprintf("test scope: the snapshot shows %d samples at upper bound %v, %d were recorded there", got[u], u, n)
+					}
+				}
+			}
+			if fail == "" && (total < snapWant || total > snapWant+snapNaN) {
+				fail = fmt.Sprintf("test scope: the snapshot shows %d samples in all, %d were recorded (+%d NaN)", total, snapWant, snapNaN)
+			}
 		}
 	}
 	return
